@@ -413,4 +413,387 @@ theorem opSelect_inv {s : St} (hi : Inv s) (sd : Side) (cls : Nat) : Inv (opSele
   · exact hi
   · exact selFold_inv sd _ hi
 
+/-! ### the excluded class `good` and the writing steps -/
+
+/-- some other live instance of row `k` on this connection has cached values -/
+def otherLoaded (c : Conn) (k : Key) (j : Nat) : Bool :=
+  (List.range c.n).any fun j' => j' != j && (c.insts j').key == k && (c.insts j').loaded && !(c.insts j').destroyed
+
+/-- some live instance of row `k` on this connection has cached values -/
+def anyLoaded (c : Conn) (k : Key) : Bool :=
+  (List.range c.n).any fun j' => (c.insts j').key == k && (c.insts j').loaded && !(c.insts j').destroyed
+
+theorem otherLoaded_false {c : Conn} {k : Key} {j : Nat} (h : otherLoaded c k j = false) (wf : ConnWF c) :
+    ∀ j', j' ≠ j → (c.insts j').key = k → (c.insts j').destroyed = false → ∀ col, (c.insts j').cached col = none := by
+  intro j' hne hk hd col
+  apply wf.loaded
+  by_cases hlt : j' < c.n
+  · simp only [otherLoaded, List.any_eq_false, List.mem_range] at h
+    have := h j' hlt
+    simp [hne, hk, hd] at this
+    exact this
+  · exact wf.fresh j' (by omega)
+
+theorem anyLoaded_false {c : Conn} {k : Key} (h : anyLoaded c k = false) (wf : ConnWF c) :
+    ∀ j', (c.insts j').key = k → (c.insts j').destroyed = false → ∀ col, (c.insts j').cached col = none := by
+  intro j' hk hd col
+  apply wf.loaded
+  by_cases hlt : j' < c.n
+  · simp only [anyLoaded, List.any_eq_false, List.mem_range] at h
+    have := h j' hlt
+    simp [hk, hd] at this
+    exact this
+  · exact wf.fresh j' (by omega)
+
+/-- the loaded live instances of rows the transaction wrote are the ones the cache hands out, and the
+    transaction's bookkeeping reaches the row -/
+def commitReaches (s : St) : Bool :=
+  (List.range s.p.n).all fun j =>
+    !((s.p.insts j).loaded && !(s.p.insts j).destroyed && (s.ws (s.p.insts j).key).isSome)
+    || (s.reached (s.p.insts j).key && (s.p.tryGet s.dc (s.p.insts j).key == some j))
+
+def rollbackReaches (s : St) : Bool :=
+  (List.range s.t.n).all fun j =>
+    !((s.t.insts j).loaded && !(s.t.insts j).destroyed && (s.ws (s.t.insts j).key).isSome)
+    || (s.t.tryGet s.dc (s.t.insts j).key == some j)
+
+/-- **the excluded class, step by step** (decidable): the situations in which the code leaves a stale value
+    behind.  `good s op = true` is the hypothesis of the `_partial` theorems. -/
+def good (s : St) : Op → Bool
+  | .commit _ => s.obsolete || commitReaches s
+  | .rollback => s.obsolete || rollbackReaches s
+  | .set .P j _ _ => s.lock || decide (j ≥ s.p.n) ||
+      ((s.db (s.p.insts j).key).isSome && !otherLoaded s.p (s.p.insts j).key j && !anyLoaded s.t (s.p.insts j).key)
+  | .destroy .P j => s.lock || decide (j ≥ s.p.n) ||
+      (!otherLoaded s.p (s.p.insts j).key j && !anyLoaded s.t (s.p.insts j).key)
+  | .set .T j _ _ => s.obsolete || decide (j ≥ s.t.n) ||
+      ((s.view .T (s.t.insts j).key).isSome && !otherLoaded s.t (s.t.insts j).key j)
+  | .destroy .T j => s.obsolete || decide (j ≥ s.t.n) || !otherLoaded s.t (s.t.insts j).key j
+  | _ => true
+
+theorem view_T_of_ws_none {s : St} {k : Key} (h : s.ws k = none) : s.view .T k = s.db k := by
+  simp [St.view, h]
+
+theorem Coh.no_cached_of_none {view : Key → Option Row} {c : Conn} (h : Coh view c) {k : Key} (hv : view k = none)
+    (j : Nat) (hk : (c.insts j).key = k) (hd : (c.insts j).destroyed = false) (col : Col) :
+    (c.insts j).cached col = none := by
+  cases hc : (c.insts j).cached col with
+  | none => rfl
+  | some v => have := h j col v hd hc; rw [hk, hv] at this; simp at this
+
+theorem opCreate_inv {s : St} (hi : Inv s) (sd : Side) (k : Key) (row : Row) : Inv (opCreate s sd k row).1 := by
+  unfold opCreate
+  cases sd with
+  | P =>
+    simp only
+    split
+    · exact hi
+    · rename_i hl
+      have hws := hi.wsLock (by simpa using hl)
+      split
+      · exact hi
+      · rename_i hn
+        have hdb : s.db k = none := by simpa using hn
+        refine ⟨?_, ?_, (hi.wfP.alloc k row).put s.dc k s.p.n (by simp) (by simp), hi.wfT, ?_⟩
+        · refine Coh.of_insts (c := s.p.alloc k row) (Coh.alloc (view := upd s.db k (some row)) ?_ k row (by simp)) (by simp)
+          refine hi.cohP.view_change ?_
+          intro j col v hd hc
+          have := hi.cohP.no_cached_of_none hdb j
+          simp only [upd_apply]; split <;> grind
+        · refine hi.cohT.view_change ?_
+          intro j col v hd hc
+          have hvt : s.view .T k = none := by rw [view_T_of_ws_none (hws k)]; exact hdb
+          have := hi.cohT.no_cached_of_none hvt j
+          have w1 := hws (s.t.insts j).key
+          simp only [St.view, w1, upd_apply]
+          split <;> grind
+        · intro h; exact hws
+  | T =>
+    simp only
+    split
+    · exact hi
+    · split
+      · exact ⟨hi.cohP, hi.cohT, hi.wfP, hi.wfT, fun h => by simp at h⟩
+      · rename_i hn
+        have hv : s.view .T k = none := by simpa using hn
+        refine ⟨hi.cohP, ?_, hi.wfP, (hi.wfT.alloc k row).put s.dc k s.t.n (by simp) (by simp), fun h => by simp at h⟩
+        refine Coh.of_insts (c := s.t.alloc k row) ?_ (by simp)
+        refine Coh.alloc ?_ k row (by simp [St.view])
+        refine hi.cohT.view_change ?_
+        intro j col v hd hc
+        have := hi.cohT.no_cached_of_none hv j
+        simp only [St.view, upd_apply]
+        split <;> grind
+
+
+theorem opSet_inv {s : St} (hi : Inv s) (sd : Side) (j : Nat) (col : Col) (v : Val)
+    (hg : good s (.set sd j col v) = true) : Inv (opSet s sd j col v).1 := by
+  unfold opSet
+  split
+  · exact hi
+  rename_i hlt
+  cases sd with
+  | P =>
+    simp only [St.conn] at hlt
+    simp only
+    split
+    · exact hi
+    rename_i hl
+    have hws := hi.wsLock (by simpa using hl)
+    simp only [good, Bool.or_eq_true, decide_eq_true_eq, Bool.and_eq_true, Bool.not_eq_true'] at hg
+    rcases hg with (hg | hg) | ⟨⟨hv, ho⟩, ha⟩
+    · exact absurd hg hl
+    · exact absurd hg hlt
+    obtain ⟨r0, hr0⟩ := Option.isSome_iff_exists.mp hv
+    have hoP := otherLoaded_false ho hi.wfP
+    have haT := anyLoaded_false ha hi.wfT
+    have hwfm : ConnWF (s.p.modify j fun i => { i with cached := upd i.cached col (some v), loaded := true }) :=
+      hi.wfP.modify j _ rfl (fun h => by simp at h) (fun h => by omega)
+    refine ⟨?_, ?_, ?_, hi.wfT, fun _ => hws⟩
+    rotate_left 2
+    · exact hwfm
+    · intro j' c v'
+      have a := hi.cohP j' c v'
+      have b := hoP j'
+      simp only [Conn.modify_insts]
+      by_cases hj : j' = j
+      · subst hj
+        simp only [if_true, upd_apply, hr0, Option.map_some, colOf_some] at a ⊢
+        grind
+      · simp only [hj, if_false, upd_apply, hr0, Option.map_some] at a ⊢
+        grind
+    · refine hi.cohT.view_change ?_
+      intro j' c v' hd hc
+      have b := haT j'
+      have w1 := hws (s.t.insts j').key
+      simp only [St.view, w1, upd_apply]
+      grind
+  | T =>
+    simp only [St.conn] at hlt
+    simp only
+    split
+    · exact hi
+    rename_i hob
+    simp only [good, Bool.or_eq_true, decide_eq_true_eq, Bool.and_eq_true, Bool.not_eq_true'] at hg
+    rcases hg with (hg | hg) | ⟨hv, ho⟩
+    · exact absurd hg hob
+    · exact absurd hg hlt
+    obtain ⟨r0, hr0⟩ := Option.isSome_iff_exists.mp hv
+    have hoT := otherLoaded_false ho hi.wfT
+    have hwfm : ConnWF (s.t.modify j fun i => { i with cached := upd i.cached col (some v), loaded := true }) :=
+      hi.wfT.modify j _ rfl (fun h => by simp at h) (fun h => by omega)
+    refine ⟨hi.cohP, ?_, hi.wfP, ?_, fun h => by simp at h⟩
+    rotate_left 1
+    · exact hwfm
+    intro j' c v'
+    have a := hi.cohT j' c v'
+    have b := hoT j'
+    simp only [Conn.modify_insts, hr0]
+    by_cases hj : j' = j
+    · subst hj
+      rw [hr0] at a
+      simp only [if_true, upd_apply, St.view, colOf_some] at a ⊢
+      grind
+    · simp only [hj, if_false, upd_apply, St.view] at a ⊢
+      grind
+
+theorem opDestroy_inv {s : St} (hi : Inv s) (sd : Side) (j : Nat)
+    (hg : good s (.destroy sd j) = true) : Inv (opDestroy s sd j).1 := by
+  unfold opDestroy
+  split
+  · exact hi
+  rename_i hlt
+  cases sd with
+  | P =>
+    simp only [St.conn] at hlt
+    simp only
+    have hdes : Coh s.db (s.p.modify j fun i => { i with destroyed := true }) :=
+      hi.cohP.modify j _ rfl (fun h => by simp at h)
+    have hwfd : ConnWF (s.p.modify j fun i => { i with destroyed := true }) :=
+      hi.wfP.modify j _ rfl (fun h c => hi.wfP.loaded j c h) (fun h => hi.wfP.fresh j h)
+    split
+    · exact ⟨hdes, hi.cohT, hwfd, hi.wfT, hi.wsLock⟩
+    rename_i hl
+    have hws := hi.wsLock (by simpa using hl)
+    simp only [good, Bool.or_eq_true, decide_eq_true_eq, Bool.and_eq_true, Bool.not_eq_true'] at hg
+    rcases hg with (hg | hg) | ⟨ho, ha⟩
+    · exact absurd hg hl
+    · exact absurd hg hlt
+    have hoP := otherLoaded_false ho hi.wfP
+    have haT := anyLoaded_false ha hi.wfT
+    refine ⟨?_, ?_, hwfd.evict _, hi.wfT, fun _ => hws⟩
+    · refine Coh.of_insts (c := s.p.modify j fun i => { i with destroyed := true }) ?_ (by simp)
+      intro j' c v'
+      have a := hi.cohP j' c v'
+      have b := hoP j'
+      simp only [Conn.modify_insts]
+      by_cases hj : j' = j
+      · subst hj; simp
+      · simp only [hj, if_false, upd_apply] at a ⊢
+        grind
+    · refine hi.cohT.view_change ?_
+      intro j' c v' hd hc
+      have b := haT j'
+      have w1 := hws (s.t.insts j').key
+      simp only [St.view, w1, upd_apply]
+      grind
+  | T =>
+    simp only [St.conn] at hlt
+    simp only
+    have hdes : Coh (s.view .T) (s.t.modify j fun i => { i with destroyed := true }) :=
+      hi.cohT.modify j _ rfl (fun h => by simp at h)
+    have hwfd : ConnWF (s.t.modify j fun i => { i with destroyed := true }) :=
+      hi.wfT.modify j _ rfl (fun h c => hi.wfT.loaded j c h) (fun h => hi.wfT.fresh j h)
+    split
+    · exact ⟨hi.cohP, hdes, hi.wfP, hwfd, hi.wsLock⟩
+    rename_i hob
+    simp only [good, Bool.or_eq_true, decide_eq_true_eq, Bool.not_eq_true'] at hg
+    rcases hg with (hg | hg) | ho
+    · exact absurd hg hob
+    · exact absurd hg hlt
+    have hoT := otherLoaded_false ho hi.wfT
+    refine ⟨hi.cohP, ?_, hi.wfP, hwfd.evict _, fun h => by simp at h⟩
+    refine Coh.of_insts (c := s.t.modify j fun i => { i with destroyed := true }) ?_ (by simp)
+    intro j' c v'
+    have a := hi.cohT j' c v'
+    have b := hoT j'
+    simp only [Conn.modify_insts]
+    by_cases hj : j' = j
+    · subst hj; simp
+    · simp only [hj, if_false, St.view] at a ⊢
+      split <;> (try simp only [upd_apply]) <;> grind
+
+/-! ### commit, rollback, begin; every good step keeps the invariant -/
+
+theorem ConnWF.expireWhere {c : Conn} (wf : ConnWF c) (hitI : Nat → Bool) (hitK : Key → Bool) :
+    ConnWF { c with
+      insts := fun j => if hitI j then (c.insts j).expire else c.insts j
+      strong := fun k => if hitK k then none else c.strong k
+      weak := fun k => if hitK k then none else c.weak k } := by
+  obtain ⟨l1, f1, sk1, wk1⟩ := wf
+  refine ⟨?_, ?_, ?_, ?_⟩
+  · intro j col; have := l1 j col; simp only; split <;> simp_all [Inst.expire]
+  · intro j h; have := f1 j h; simp only; split <;> simp_all [Inst.expire]
+  · intro k j h; simp only at h ⊢; have := sk1 k j; split at h
+    · cases h
+    · split <;> simp_all [Inst.expire]
+  · intro k j h; simp only at h ⊢; have := wk1 k j; split at h
+    · cases h
+    · split <;> simp_all [Inst.expire]
+
+theorem commitReaches_spec {s : St} (h : commitReaches s = true) (wf : ConnWF s.p) (j : Nat)
+    (hl : (s.p.insts j).loaded = true) (hd : (s.p.insts j).destroyed = false)
+    (hw : (s.ws (s.p.insts j).key).isSome = true) :
+    s.reached (s.p.insts j).key = true ∧ s.p.tryGet s.dc (s.p.insts j).key = some j := by
+  have hlt : j < s.p.n := by
+    by_cases hh : j < s.p.n
+    · exact hh
+    · have := wf.fresh j (by omega); simp [this] at hl
+  simp only [commitReaches, List.all_eq_true, List.mem_range] at h
+  have := h j hlt
+  simpa [hl, hd, hw] using this
+
+theorem rollbackReaches_spec {s : St} (h : rollbackReaches s = true) (wf : ConnWF s.t) (j : Nat)
+    (hl : (s.t.insts j).loaded = true) (hd : (s.t.insts j).destroyed = false)
+    (hw : (s.ws (s.t.insts j).key).isSome = true) :
+    s.t.tryGet s.dc (s.t.insts j).key = some j := by
+  have hlt : j < s.t.n := by
+    by_cases hh : j < s.t.n
+    · exact hh
+    · have := wf.fresh j (by omega); simp [this] at hl
+  simp only [rollbackReaches, List.all_eq_true, List.mem_range] at h
+  have := h j hlt
+  simpa [hl, hd, hw] using this
+
+theorem opCommit_inv {s : St} (hi : Inv s) (close : Bool) (hg : good s (.commit close) = true) :
+    Inv (opCommit s close).1 := by
+  unfold opCommit
+  split
+  · exact hi
+  rename_i hob
+  simp only [good, Bool.or_eq_true] at hg
+  rcases hg with hg | hg
+  · exact absurd hg hob
+  have hsp := commitReaches_spec hg hi.wfP
+  refine ⟨?_, ?_, ?_, hi.wfT, fun _ _ => rfl⟩
+  · intro j col v
+    simp only [St.commitExpire]
+    split
+    · intro _ h; simp [Inst.expire] at h
+    · rename_i hne
+      intro hd hc
+      have hl : (s.p.insts j).loaded = true := by
+        cases hh : (s.p.insts j).loaded with
+        | true => rfl
+        | false => have := hi.wfP.loaded j col hh; rw [this] at hc; cases hc
+      cases hw : s.ws (s.p.insts j).key with
+      | none => simp only [St.view, hw]; exact hi.cohP j col v hd hc
+      | some w =>
+        have := hsp j hl hd (by simp [hw])
+        simp [this.1, this.2] at hne
+  · exact hi.cohT
+  · exact hi.wfP.expireWhere _ _
+
+theorem opRollback_inv {s : St} (hi : Inv s) (hg : good s .rollback = true) : Inv (opRollback s).1 := by
+  unfold opRollback
+  split
+  · exact hi
+  rename_i hob
+  simp only [good, Bool.or_eq_true] at hg
+  rcases hg with hg | hg
+  · exact absurd hg hob
+  have hsp := rollbackReaches_spec hg hi.wfT
+  refine ⟨hi.cohP, ?_, hi.wfP, ?_, fun _ _ => rfl⟩
+  · intro j col v
+    simp only [St.rollbackExpire]
+    split
+    · intro _ h; simp [Inst.expire] at h
+    · rename_i hne
+      intro hd hc
+      have hl : (s.t.insts j).loaded = true := by
+        cases hh : (s.t.insts j).loaded with
+        | true => rfl
+        | false => have := hi.wfT.loaded j col hh; rw [this] at hc; cases hc
+      cases hw : s.ws (s.t.insts j).key with
+      | none =>
+        have := hi.cohT j col v hd hc
+        simpa [St.view, hw] using this
+      | some w =>
+        have := hsp j hl hd (by simp [hw])
+        simp [this] at hne
+  · exact hi.wfT.expireWhere _ _
+
+theorem opBegin_inv {s : St} (hi : Inv s) : Inv (opBegin s).1 := by
+  unfold opBegin
+  split
+  · exact ⟨hi.cohP, hi.cohT, hi.wfP, hi.wfT, hi.wsLock⟩
+  · exact hi
+
+/-- every step inside `good` preserves the invariant -/
+theorem step_inv {s : St} (hi : Inv s) (op : Op) (hg : good s op = true) : Inv (step s op).1 := by
+  cases op with
+  | create sd k row => exact opCreate_inv hi sd k row
+  | get sd k b => exact opGet_inv hi sd k b
+  | read sd j c => exact opRead_inv hi sd j c
+  | set sd j c v => exact opSet_inv hi sd j c v hg
+  | destroy sd j => exact opDestroy_inv hi sd j hg
+  | expire sd j => exact opExpire_inv hi sd j
+  | select sd cls => exact opSelect_inv hi sd cls
+  | drop sd j => exact opDrop_inv hi sd j
+  | weaken sd k => exact weaken_inv hi sd k
+  | purge sd => exact purge_inv hi sd
+  | commit close => exact opCommit_inv hi close hg
+  | rollback => exact opRollback_inv hi hg
+  | begin => exact opBegin_inv hi
+
+/-- a history all of whose steps are inside `good` -/
+def GoodHist : St → List Op → Prop
+  | _, [] => True
+  | s, op :: ops => good s op = true ∧ GoodHist (step s op).1 ops
+
+theorem run_inv {s : St} (hi : Inv s) (ops : List Op) (hg : GoodHist s ops) : Inv (run s ops) := by
+  induction ops generalizing s with
+  | nil => exact hi
+  | cons op ops ih => exact ih (step_inv hi op hg.1) hg.2
+
 end SqlObjVerif.Tx
